@@ -218,13 +218,32 @@ Proof.
     destruct (cw_beq eff full); inversion Hc.
 Qed.
 
-Theorem cw_finv_static st k nc deps : cw_finv st -> cw_finv (cw_add_static st k nc deps).
+Lemma cw_fmem_fremove_sub k x l : cw_fmem x (cw_fremove k l) = true -> cw_fmem x l = true.
 Proof.
-  intros Hi. unfold cw_add_static. destruct (cw_find k st) eqn:Hf; [exact Hi|].
-  intros x Hx. cbn [cs_files] in Hx. destruct (Hi x Hx) as (o & Ho & Hr). exists o. split; [|exact Hr].
-  unfold cw_find. cbn [cs_objs find co_key]. destruct (cw_keq x k) eqn:E; [|exact Ho].
-  apply cw_keq_eq in E. subst. congruence.
+  unfold cw_fremove. rewrite (cw_fmem_filter (fun y => negb (cw_keq k y))). intros H. apply andb_prop in H as [H _]. exact H.
 Qed.
+
+(* loading a declaration from ANY origin keeps the invariant; its file joins the _api tree exactly when the origin IS _api *)
+Theorem cw_finv_loaded st k nc deps orig c : cw_finv st -> cw_finv (cw_add_loaded st k nc deps orig c).
+Proof.
+  intros Hi. unfold cw_add_loaded. destruct (cw_find k st) eqn:Hf; [exact Hi|].
+  intros x Hx. cbn [cs_files] in Hx.
+  assert (Hold : cw_fmem x (cs_files st) = true ->
+    exists o, cw_find x {| cs_objs := {| co_key := k; co_pkg := orig; co_deps := deps |} :: cs_objs st;
+                           cs_items := (if nc then cs_items st else k :: cs_items st);
+                           cs_files := (if cw_origin_runtime orig then (k, c) :: cw_fremove k (cs_files st) else cs_files st) |} = Some o
+              /\ co_runtime o = true).
+  { intros Hx'. destruct (Hi x Hx') as (o & Ho & Hr). exists o. split; [|exact Hr].
+    unfold cw_find. cbn [cs_objs find co_key]. destruct (cw_keq x k) eqn:E; [|exact Ho].
+    apply cw_keq_eq in E. subst. congruence. }
+  destruct (cw_origin_runtime orig) eqn:Ho; [|exact (Hold Hx)].
+  unfold cw_fmem in Hx. cbn [existsb fst] in Hx. destruct (cw_keq x k) eqn:E.
+  - eexists. split; [unfold cw_find; cbn [cs_objs find co_key]; rewrite E; reflexivity|exact Ho].
+  - cbn [orb] in Hx. apply Hold. apply (cw_fmem_fremove_sub k). exact Hx.
+Qed.
+
+Theorem cw_finv_static st k nc deps : cw_finv st -> cw_finv (cw_add_static st k nc deps).
+Proof. apply cw_finv_loaded. Qed.
 
 Theorem cw_finv_delete st k c st' r : cw_finv st -> cw_delete st k c = (st', r) -> cw_finv st'.
 Proof.
